@@ -6,7 +6,7 @@ PROFILES = [('tail', 3), ('ssamem', 2), ('ssald', 1.5), ('ldonly', 1), ('touched
 
 def run(ctx):
     return syscheck.run(
-        ctx, 'C09', 'C09', PROFILES, S.PIPELINED, n_quick=100, n_thorough=1500,
+        ctx, 'C09', ['C09', 'C05_mvp4s', 'C05_mvp5s'], PROFILES, S.PIPELINED, n_quick=100, n_thorough=1500,
         assumptions=['the exit is by ret (75 %) or by running past the last instruction (25 %)'],
         text_rule='programs whose last 1-4 instructions before the exit are cache-missing loads, stores to uncached lines and dependent chains; '
                   'MVP-4..8 x parallelism 1..4 inside the calibrated domains; non-trivial = a load or a store within the last four executed instructions (tag tail) or any load')
